@@ -317,7 +317,13 @@ def point_list(draw, hi, max_n=5):
     if draw(st.integers(0, 3)) == 0:
         ks[-1] = 1000  # a point on the very end of the span (and, through k = 0, on its start) is legal in Praat
     vals = draw(st.lists(values(), min_size=n, max_size=n))
-    return [[0.0 if k == 0 else hi if k == 1000 else hi * k / 1000, v] for k, v in zip(ks, vals)]
+    out = [[0.0 if k == 0 else hi if k == 1000 else hi * k / 1000, v] for k, v in zip(ks, vals)]
+    if draw(st.integers(0, 3)) == 0:
+        # the same point twice (KlattGrid tiers keep their points ordered by time and then value, so nothing is claimed
+        # about the order of coinciding points with different values; equal ones stay two points through any function)
+        i = draw(st.integers(0, n - 1))
+        out.insert(i + 1, [out[i][0], out[i][1]])
+    return out
 
 
 @st.composite
@@ -341,6 +347,22 @@ def klatt_cases(draw):
     targets += [f"{s['name']}/{g['name']}/{i}" for s in secs if s["kind"] == "container" for g in s["groups"][:2] for i in (0, 1)]
     mods = draw(st.lists(st.tuples(st.sampled_from(targets), st.sampled_from(MOD_NAMES)).map(list), max_size=3))
     return {"kg": {"xmin": 0.0, "xmax": hi, "sections": secs}, "trailing_blank": draw(st.integers(0, 3)) > 0, "mods": mods}
+
+
+def _kg_spans(kg):
+    from praatio.data_classes.klattgrid import KlattContainerTier
+
+    out = {}
+    for name in kg.tierNames:
+        tier = kg.getTier(name)
+        if isinstance(tier, KlattContainerTier):
+            for kit_name in tier.tierNameList:
+                kit = tier.tierDict[kit_name]
+                for sub in kit.tierNameList:
+                    out[f"{name}/{kit_name}/{sub}"] = (float(kit.tierDict[sub].minTimestamp), float(kit.tierDict[sub].maxTimestamp))
+        else:
+            out[name] = (float(tier.minTimestamp), float(tier.maxTimestamp))
+    return out
 
 
 def _kg_paths(kg):
@@ -375,17 +397,21 @@ def run_constructed(case):
         return lst
 
     template_list = list(template)
-    kg = Klattgrid()
-    kg.addTier(KlattPointTier("pitch", pts(), 0, hi))
-    kg.addTier(KlattPointTier("voicingAmplitude", pts(), 0, hi))
-    container = KlattContainerTier("oral_formants")
-    for kind in ("formants", "bandwidths"):
-        kit = KlattIntermediateTier(kind)
-        for i in range(1, case["n"] + 1):
-            kit.addTier(KlattSubPointTier(f"{kind} [{i}]", pts(), 0, hi))
-        container.addTier(kit)
-    kg.addTier(container)
+    with quiet():
+        kg = Klattgrid()
+        kg.addTier(KlattPointTier("pitch", pts(), 0, hi))
+        kg.addTier(KlattPointTier("voicingAmplitude", pts(), 0, hi))
+        container = KlattContainerTier("oral_formants")
+        for kind in ("formants", "bandwidths"):
+            kit = KlattIntermediateTier(kind)
+            for i in range(1, case["n"] + 1):
+                # sibling sub-tiers may have spans of their own (each at least as long as its points need)
+                hi_i = hi + (0.25 * i if case.get("own_spans") else 0.0)
+                kit.addTier(KlattSubPointTier(f"{kind} [{i}]", pts(), 0, hi_i))
+            container.addTier(kit)
+        kg.addTier(container)
     exp = _kg_paths(kg)
+    spans0 = _kg_spans(kg)
     want0 = [(float(t), float(v)) for t, v in template]
     if any(v != want0 for v in exp.values()):
         raise Violation("constructed-differs", f"a tier does not hold the points it was built from: {exp}")
@@ -407,14 +433,21 @@ def run_constructed(case):
     if any([tuple(x) for x in lst] != template for lst in given):
         raise Violation("argument-mutated", "a point list handed to a tier constructor was changed")
     fn = os.path.join(tmpdir(), "c19_built.KlattGrid")
-    kg.save(fn)
-    back = _kg_paths(klattgrid.openKlattgrid(fn))
+    with quiet():
+        kg.save(fn)
+        reopened = klattgrid.openKlattgrid(fn)
+    back = _kg_paths(reopened)
+    if _kg_spans(kg) != spans0:
+        raise Violation("span-changed-in-memory", f"{_kg_spans(kg)} != {spans0}")
+    if sorted(back) == sorted(exp) and _kg_spans(reopened) != spans0:
+        raise Violation("roundtrip-spans", f"reopened spans {_kg_spans(reopened)} != {spans0}")
     if sorted(back) != sorted(exp):
         raise Violation("hierarchy", f"reopened: {sorted(back)} != {sorted(exp)}")
     for k in exp:
         if back[k] != exp[k]:
             raise Violation("roundtrip-values", f"tier {k} reopened as {back[k]}, expected {exp[k]}")
-    cl = ["constructed"] + (["shared_point_list"] if case["share"] else []) + (["modified"] if case["mods"] else [])
+    cl = ["constructed"] + (["shared_point_list"] if case["share"] else []) + (["modified"] if case["mods"] else []) \
+        + (["sub_tiers_with_spans_of_their_own"] if case.get("own_spans") and case["n"] > 1 else [])
     return {"classes": cl, "nontrivial": bool(case["mods"]) and bool(template)}
 
 
@@ -423,7 +456,7 @@ def constructed_cases(draw):
     hi = draw(st.sampled_from([1.0, 2.5, 0.75]))
     pts = draw(point_list(hi, 4))
     targets = ["pitch", "voicingAmplitude", "oral_formants/formants", "oral_formants/bandwidths"]
-    return {"xmax": hi, "points": pts, "n": draw(st.integers(1, 4)), "share": draw(st.booleans()),
+    return {"xmax": hi, "points": pts, "n": draw(st.integers(1, 4)), "share": draw(st.booleans()), "own_spans": draw(st.booleans()),
             "mods": draw(st.lists(st.tuples(st.sampled_from(targets), st.sampled_from(MOD_NAMES)).map(list), max_size=3))}
 
 
